@@ -61,5 +61,7 @@ ExcParent == [E1 |-> {"Exception"}, E1a |-> {"E1"}, E1b |-> {"E1a"}, E2 |-> {"Ex
 RECURSIVE ExcAnc(_)
 ExcAnc(c) == {c} \cup UNION {ExcAnc(p) : p \in ExcParent[c]}
 RaisesOK(R, D, H) == \E x \in D \cup H : x \in ExcAnc(R)
+\* a call to a callee that declares the sequence RS: every one of them has to be covered
+RaisesAllOK(RS, D, H) == \A j \in 1..Len(RS) : RaisesOK(RS[j], D, H)
 DeclarableOK(d) == "Exception" \in ExcAnc(d)
 =====================================================================================
